@@ -1,7 +1,7 @@
 (** C07 - integer text and byte encodings round-trip and match the reference digits.
     ONLY statements pinned here; proofs live in Dashu.Int.Io*. *)
 From Dashu Require Import Base.Prelude Base.Words Int.IoSpec Int.IoModel Int.IoDigits Int.IoPrint Int.IoParse
-  Int.IoRadix Int.IoLayout Int.IoBytes Int.IoRound Int.IoPow2 Int.IoTop.
+  Int.IoRadix Int.IoLayout Int.IoBytes Int.IoRound Int.IoPow2 Int.IoTop Int.IoChunks Int.IoBytesAsIs.
 From DashuGen Require Import Params.
 Open Scope Z_scope.
 
@@ -106,6 +106,11 @@ Theorem C07_text_roundtrip : forall r, 2 <= r -> r <= 36 -> forall f v t, f_widt
 Proof. exact from_str_radix_roundtrip. Qed.
 Print Assumptions C07_text_roundtrip.
 
+Theorem C07_prefix_roundtrip : forall k f v t default, std_kind k = true -> f_alt f = true -> f_width f = None ->
+  fmt_spec k f v = Ok t -> from_str_prefix_spec true default t = Ok (v, kind_radix k).
+Proof. exact from_str_prefix_roundtrip. Qed.
+Print Assumptions C07_prefix_roundtrip.
+
 (** bytes: encode/decode are mutually inverse (unsigned; two's complement for ALL integers) *)
 Theorem C07_bytes_roundtrip : forall v, 0 <= v -> le_value (to_le_bytes_spec v) = v.
 Proof. exact to_le_bytes_roundtrip. Qed.
@@ -142,6 +147,32 @@ Print Assumptions C07_chunks_roundtrip.
 Theorem C07_from_chunks_asis : forall w, 0 < w -> forall cb cs, 0 <= cb -> from_chunks_asis w cb cs = from_chunks_spec cb cs.
 Proof. exact from_chunks_asis_correct. Qed.
 Print Assumptions C07_from_chunks_asis.
+
+(** convert.rs to_le_bytes / to_signed_le_bytes (after the repair of F01): every path (double word, word buffer,
+    flipped words of magnitude-1, sign byte) produces the specification encoding; with from_*: the identity *)
+Theorem C07_to_bytes_asis : forall w, 0 < w -> w mod 8 = 0 -> forall m, 0 <= m -> to_le_bytes_asis w m = to_le_bytes_spec m.
+Proof. exact to_le_bytes_asis_correct. Qed.
+Print Assumptions C07_to_bytes_asis.
+
+Theorem C07_to_signed_bytes_asis : forall w, 0 < w -> w mod 8 = 0 -> forall v, to_signed_le_bytes_asis w v = to_signed_le_bytes_spec v.
+Proof. exact to_signed_le_bytes_asis_correct. Qed.
+Print Assumptions C07_to_signed_bytes_asis.
+
+Theorem C07_bytes_roundtrip_asis : forall w, 0 < w -> w mod 8 = 0 -> forall v,
+  from_signed_le_bytes_asis w (to_signed_le_bytes_asis w v) = v.
+Proof. exact bytes_roundtrip_asis. Qed.
+Print Assumptions C07_bytes_roundtrip_asis.
+
+(** convert.rs to_chunks (after the repair of F02): double-word, word-aligned and general paths return the
+    specification chunks; with from_chunks: the identity *)
+Theorem C07_to_chunks_asis : forall w, 0 < w -> forall v cb, 0 <= v -> 0 < cb -> to_chunks_asis w v cb = Ok (to_chunks_spec v cb).
+Proof. exact to_chunks_asis_correct. Qed.
+Print Assumptions C07_to_chunks_asis.
+
+Theorem C07_chunks_roundtrip_asis : forall w v cb cs, 0 < w -> 0 <= v -> 0 < cb ->
+  to_chunks_asis w v cb = Ok cs -> from_chunks_asis w cb cs = v.
+Proof. exact chunks_roundtrip_asis. Qed.
+Print Assumptions C07_chunks_roundtrip_asis.
 
 (** the repaired defects: the code as it was is refuted on the witnesses, the code as it is agrees *)
 Theorem C07_F01_refuted :
